@@ -204,6 +204,19 @@ theorem closed_stays_closed (first : Req) (rest : List ClientMsg) (hm : first.me
   have hi := inv_reachable hm hr
   exact ⟨hi.doneAbs, done_absorbing hs, hi.qcap⟩
 
+/-! ### fifo_pairing (partial) -/
+
+/-- FIFO pairing in the sequential reading of serverForwardResponses (`respond`: the responses of the origin consumed
+    against the announced requests): the requests that the delivered *final* responses were paired with are, in
+    order, a prefix of the announced requests, i.e. the k-th final response is paired with the k-th request, whatever
+    interim responses come in between.
+    PARTIAL: the full statement is the same claim for the traces `clientOut` of every reachable state of the
+    transition system (`∀ s, Reachable first rest s → the index stored with each delivery = number of final deliveries
+    before it ∧ s.announced[index] = its request`); the ghost fields for it (`taken`, the index in `clientOut`) are in
+    the model, the invariant proof is missing. Pairing is otherwise covered by the correspondence check and the oracle. -/
+theorem fifo_pairing_partial (qs : List Req) (ps : List Resp) : finalsOf (respond qs ps) <+: qs :=
+  respond_fifo qs ps
+
 /-! ### the hypotheses are satisfiable -/
 
 def exReq : Req :=
@@ -236,3 +249,4 @@ end SSV.C16
 #print axioms SSV.C16.violating_request_ends
 #print axioms SSV.C16.close_rules
 #print axioms SSV.C16.closed_stays_closed
+#print axioms SSV.C16.fifo_pairing_partial
